@@ -184,16 +184,18 @@ def fires : FOp → Fault → Bool
 /-- Effect of a call on which `fires op f`:
     * a failed call changes nothing, except
     * short write/fwrite/fputs: the first half of the data is transferred;
-    * failed fclose: the stdio buffer is discarded and the stream is closed;
+    * failed fclose: the final flush failed — only the first `kept` bytes of
+      the stdio buffer (those stdio had flushed by itself earlier) are in the
+      file, the rest is discarded and the stream is closed;
     * failed close: a deferred write error — the data of the last `write`
       on the descriptor did not reach the file. -/
-def applyFailed (fs : Fs) : FOp → Fault → Fs
+def applyFailed (fs : Fs) (kept : Nat) : FOp → Fault → Fs
   | .write r t d, .short => (fs.appendDisk (.file r t .obs) (d.take (d.length / 2))).logFlushed t (d.take (d.length / 2))
   | .fwrite p d, .short => fs.appendPend p (d.take (d.length / 2))
   | .fputs p d, .short => fs.appendPend p (d.take (d.length / 2))
   | .fcloseW p, _ =>
     match fs.get p with
-    | some (.file disk _) => fs.set p (.file disk [])
+    | some (.file disk pend) => fs.set p (.file (disk ++ pend.take kept) [])
     | _ => fs
   | .close r t last, _ =>
     match fs.get (.file r t .obs) with
@@ -473,14 +475,14 @@ def cont (ser : Meta → List Nat) (p : Prog) (c : Call) (f : Fault) (rest : Lis
   | .moveFwrite | .moveFcloseOut | .moveFcloseIn | .moveRemove | .moveClosedir | .cleanRmdir => .go rest
 
 /-- The `i`-th call of the run fails with `f` (nothing fails if there is no
-    such call or the fault does not apply to it). -/
-def faultAt (ser : Meta → List Nat) (p : Prog) (i : Nat) (f : Fault) : Outcome :=
+    such call or the fault does not apply to it).  `kept`: see `applyFailed`. -/
+def faultAt (ser : Meta → List Nat) (p : Prog) (i : Nat) (f : Fault) (kept : Nat := 0) : Outcome :=
   let cs := calls ser p
   match cs[i]? with
   | none => .returned (run p.init (ops cs))
   | some c =>
     if fires c.op f then
-      let s := applyFailed (run p.init (ops (cs.take i))) c.op f
+      let s := applyFailed (run p.init (ops (cs.take i))) kept c.op f
       match cont ser p c f (cs.drop (i + 1)) with
       | .die extra => .die (run s (ops extra))
       | .go rest => .returned (run s (ops rest))
